@@ -122,11 +122,19 @@ def gen_network(rng, n_min=2, n_max=9, max_inds=12, dims=(1, 2, 2, 3), max_rank=
     raise RuntimeError("could not generate a network within the caps")
 
 
-def make_arrays(inputs, size_dict, seed, complex_=False):
+def make_arrays(inputs, size_dict, seed, complex_=False, dtype=None):
     g = np.random.default_rng(seed)
     arrays = []
     for term in inputs:
         shape = tuple(size_dict[ix] for ix in term)
+        if dtype == "int":
+            # small POSITIVE integers: exact reference, a dtype that in-place float arithmetic cannot be written back
+            # into, and no intermediate is ever all-zero (strip_exponent documents nan for those unless check_zero)
+            arrays.append(g.integers(1, 4, size=shape).astype(np.int64))
+            continue
+        if dtype == "float32":
+            arrays.append(g.uniform(-1.0, 1.0, size=shape).astype(np.float32))
+            continue
         x = g.uniform(-1.0, 1.0, size=shape)
         if complex_:
             x = x + 1j * g.uniform(-1.0, 1.0, size=shape)
